@@ -182,4 +182,63 @@ def mapLocal (v : Option Nat) : MReq → Option Nat × MResp
   | .exist => (v, .bool v.isSome)
   | .delete => (none, .unit)
 
+/-! ### key lockers / semaphore maps seen from outside: who holds which key
+
+The per-key semantics (reader/writer exclusion, hand-off) belong to C01/C02; what C17 needs is that a
+*group* answers as ONE locker would, whichever API a caller uses (`Lock`, `RLock`, `Locks`, `RLocks`, the
+semaphore map's `AcquireWrite/Read`). Scripts keep at most one blocked caller, so the successor is unique. -/
+
+structure Hold where
+  thread : Nat
+  key : Key
+  write : Bool
+deriving DecidableEq, Repr
+
+structure Waiter where
+  thread : Nat
+  keys : List Key
+  write : Bool
+deriving DecidableEq, Repr
+
+structure LockSt where
+  holds : List Hold
+  waiter : Option Waiter
+deriving DecidableEq, Repr
+
+def LockSt.empty : LockSt := ⟨[], none⟩
+
+/-- may `k` be taken (for writing / reading) given the current holders? -/
+def free (holds : List Hold) (k : Key) (write : Bool) : Bool :=
+  holds.all (fun h => h.key ≠ k || (!write && !h.write))
+
+def grant (holds : List Hold) (t : Nat) (keys : List Key) (write : Bool) : List Hold :=
+  holds ++ keys.map (fun k => ⟨t, k, write⟩)
+
+def distinct : List Key → Bool
+  | [] => true
+  | k :: ks => !ks.contains k && distinct ks
+
+/-- acquire: `none` = not a legal script line (someone is already blocked, duplicate keys, the thread already
+holds one of the keys); otherwise the new state and whether the call returned (`true`) or is parked -/
+def LockSt.acquire (s : LockSt) (t : Nat) (keys : List Key) (write : Bool) : Option (LockSt × Bool) :=
+  if s.waiter.isSome || keys.isEmpty || !distinct keys || s.holds.any (fun h => h.thread = t && keys.contains h.key) then none
+  else if keys.all (fun k => free s.holds k write) then some (⟨grant s.holds t keys write, none⟩, true)
+  else some (⟨s.holds, some ⟨t, keys, write⟩⟩, false)
+
+def dropHolds (holds : List Hold) (t : Nat) (keys : List Key) (write : Bool) : List Hold :=
+  holds.filter (fun h => !(h.thread = t && h.write = write && keys.contains h.key))
+
+/-- release: `none` = not legal (the thread is the blocked one, or does not hold every key in that mode);
+otherwise the new state and the thread whose blocked call now returns, if any -/
+def LockSt.release (s : LockSt) (t : Nat) (keys : List Key) (write : Bool) : Option (LockSt × Option Nat) :=
+  if keys.isEmpty || !distinct keys || (s.waiter.any (fun w => w.thread = t)) ||
+      !keys.all (fun k => s.holds.contains ⟨t, k, write⟩) then none
+  else
+    let holds := dropHolds s.holds t keys write
+    match s.waiter with
+    | some w =>
+      if w.keys.all (fun k => free holds k w.write) then some (⟨grant holds w.thread w.keys w.write, none⟩, some w.thread)
+      else some (⟨holds, some w⟩, none)
+    | none => some (⟨holds, none⟩, none)
+
 end Nv.C17
